@@ -184,7 +184,9 @@ Local ==
              [] OTHER -> TRUE
          XD2 == IF call.a \in {"del", "rem"} THEN XD \cup (Range(visB) \ Range(visA))
                 \* marks removed by a format call are not implied by anything the receivers integrate: they are input
-                ELSE IF call.a = "fmt" THEN XD \cup Ids(Ev.upd.del)
+                \* a multi-operation transaction: every deletion it carries counts as explicit (stricter SameInput,
+                \* hence never more demanding for C01_Converge)
+                ELSE IF call.a \in {"fmt", "multi"} THEN XD \cup Ids(Ev.upd.del)
                 ELSE XD
          \* sequential meaning of the rich-text calls on the rendered attributes (only where marks are around)
          rich == ok /\ Ev.cont \in DOMAIN R2.lst /\ ~Keyed(E2, R2.lst[Ev.cont]) /\ Marked(E2, R2.lst[Ev.cont])
